@@ -9,6 +9,8 @@ From Refinery Require Export Monitor.CollCase_coll.
    12  the remembered decision changed (kept <-> dropped) without having been forgotten
    13  spans were forwarded for a trace that has no decision on record
    14  spans of one trace were routed to different workers
+   16  a span of a trace that already has a decision on record (not forgotten) was buffered as a NEW
+       trace instead of following the decision (a second, independent decision will be made)
    15  a decision disappeared from the decision cache although it was within the retention limits
        (a dropped decision, or a kept one while the kept-decision LRU was not over capacity) *)
 Definition dec_changes (its : list item) (t : N) : bool :=
@@ -38,7 +40,24 @@ Definition c01_trace (k : case) (t : N) : codes :=
     cond (negb (dec_changes its t)) 12 ++
     cond (is_empty fwd || negb (N.eqb d 0)) 13.
 
+(* for every span item: the trace had a decision after the previous item, nothing was forgotten, and
+   after the span op the trace sits in a buffer again *)
+Definition rebuffered (its : list item) : bool :=
+  (fix go (prev : option item) (l : list item) : bool :=
+     match l with
+     | [] => false
+     | it :: r =>
+         (match prev, i_op it with
+          | Some p, ISpan _ s =>
+              negb (N.eqb (nthN (o_dec p) (s_tid s) 0%N) 0) &&
+              negb (mem_N (s_tid s) (i_forgot p)) && negb (mem_N (s_tid s) (i_forgot it)) &&
+              mem_N (s_tid s) (concat (map keys_of (o_bufs it)))
+          | _, _ => false
+          end) || go (Some it) r
+     end) None its.
+
 Definition check (k : case) : codes :=
   (if model_agrees k then [] else [code_mismatch]) ++
   cond (forgetting_legit k) 15 ++
+  cond (negb (rebuffered (k_items k))) 16 ++
   flat_map (c01_trace k) (seqN (k_ntr k)).
